@@ -15,3 +15,4 @@ def load(name):
         m = importlib.import_module("units." + mod)
         _CACHE[name] = m.unit(arg) if arg is not None else m.unit()
     return _CACHE[name]
+REGISTRY["ark_encoding"] = ("arkcurve", "encoding")
